@@ -495,7 +495,7 @@ func genElement(rt *rapid.T, label string) rlpref.Item {
 	case 3:
 		return rlpref.S(gen.Bytes(rt, label+".long", rapid.IntRange(33, 40).Draw(rt, label+".longlen")))
 	case 4:
-		return rlpref.S(gen.Bytes(rt, label+".addrish", rapid.SampledFrom([]int{19, 21, 20, 1, 32}).Draw(rt, label+".alen")))
+		return rlpref.S(gen.Bytes(rt, label+".addrish", rapid.SampledFrom([]int{19, 21, 20, 1, 32, 39, 40, 41, 60}).Draw(rt, label+".alen")))
 	case 5:
 		return rlpref.S(append([]byte{0}, gen.Bytes(rt, label+".lz", rapid.IntRange(0, 8).Draw(rt, label+".lzlen"))...))
 	case 6:
@@ -521,6 +521,12 @@ func mutate(rt *rapid.T, b *built) (raw []byte, supplied int64, labels []string)
 		switch op {
 		case 0: // replace a signed field, then re-sign so the signature still verifies
 			i := rapid.IntRange(0, sigStart-1).Draw(rt, lbl+".i")
+			if rapid.IntRange(0, 3).Draw(rt, lbl+".toSlot") == 0 {
+				i = 3 // the `to` slot (legacy layout; index 5 for type 2)
+				if b.mode == txmodel.ModeEIP1559 {
+					i = 5
+				}
+			}
 			if i < len(b.items) {
 				b.items[i] = genElement(rt, lbl+".e")
 				if b.mode == txmodel.ModeEIP1559 && i == 0 && rapid.Bool().Draw(rt, lbl+".keepchain") {
